@@ -60,7 +60,7 @@ impl Add for V {
 }
 
 /// A notification, as delivered to an observer or injected into a hot input.
-#[derive(Clone, Debug, PartialEq, Eq, Hash)]
+#[derive(Clone, Debug, PartialEq, Eq, Hash, PartialOrd, Ord)]
 pub enum N {
   Next(V),
   Err(E),
